@@ -192,16 +192,33 @@ def run(spec, R):
                             R.violation('ccg2lambda:token-normalisation',
                                         f'token attribute {attr}={orig!r} became {v!r} after normalize_tokens: still carries logic '
                                         f'punctuation (or lacks the _ prefix)', dict(wit, attr=attr, value=v, original=orig))
-            if lang == 'ja':
+            variants = [('plain', jtext)] if lang == 'ja' else []
+            if lang == 'ja' and rng.random() < 0.3:
+                # the same document after ccg2lambda's semantic parser has run over it (parse.py: every sentence gets one <semantics>
+                # element per tree, holding copies of its spans reduced to id/child/sem/type): still the Jigg XML of the derivation
+                sroot = etree.fromstring(jtext.encode('utf-8'))
+                for sent in sroot.iter('sentence'):
+                    sems = []
+                    for ccg in sent.findall('ccg'):
+                        sem = etree.Element('semantics', status='success', ccg_id=ccg.get('id'), root=ccg.get('root'))
+                        for span in ccg.findall('span'):
+                            sp = etree.SubElement(sem, 'span', id=span.get('id'), sem='_x')
+                            if span.get('child') is not None:
+                                sp.set('child', span.get('child'))
+                        sems.append(sem)
+                    sent.extend(sems)
+                variants.append(('with-semantics', etree.tostring(sroot, encoding='unicode')))
+                R.count('read_jigg_xml:documents-with-semantics')
+            for variant, vtext in variants:
                 try:
                     with open(path, 'w', encoding='utf-8') as f:
-                        f.write(jtext)
+                        f.write(vtext)
                     read = list(read_jigg_xml(path))
                 except Exception as e:
-                    R.violation('read_jigg_xml:raises', f'read_jigg_xml raised {e!r}', dict(wit, text=jtext[:1500]))
+                    R.violation('read_jigg_xml:raises', f'read_jigg_xml raised {e!r} ({variant})', dict(wit, text=vtext[:1500]))
                     continue
                 if len(read) != len(flat):
-                    R.violation('read_jigg_xml:shape', f'{len(read)} trees read from {len(flat)} written', wit)
+                    R.violation('read_jigg_xml:shape', f'{len(read)} trees read from {len(flat)} written ({variant})', wit)
                     continue
                 for st, rr in zip(flat, read):
                     R.count('read_jigg_xml:trees')
